@@ -475,6 +475,23 @@ func c19Block(e *Env) func(*rapid.T) {
 		if b1.Hash() != h0 || b2.Hash() != h0 {
 			viol("signature-changes-hash", "signing a block changed its hash")
 		}
+		if !amev {
+			// the same for a header whose transactions are not attached yet (what MakeHeader hands to the library:
+			// it is signed and hashed before CreateBlock attaches the transactions to the same object)
+			hd1, hd2 := consensus.NewBlock(ts*sec, idx, prev, nonce, hashes), consensus.NewBlock(ts*sec, idx, prev, nonce, hashes)
+			hh := hd1.Hash()
+			if err := hd1.Sign(priv); err != nil {
+				viol("sign-failed", err.Error())
+			}
+			if hd1.Hash() != hh || hd2.Hash() != hh {
+				viol("signature-changes-hash", "signing a header (transactions not attached yet) changed its hash")
+			}
+			hd1.SetTransactions([]dbft.Transaction[u256]{})
+			hd2.SetTransactions([]dbft.Transaction[u256]{})
+			if hd1.Hash() != h0 || hd2.Hash() != h0 {
+				viol("block-hash-not-function-of-content", "a header completed after it was built (and signed) does not hash like the block built in one go")
+			}
+		}
 		if err := b2.Verify(pub, b1.Signature()); err != nil {
 			viol("signature-rejected", "a block signature does not verify under the signer's key for the same content")
 		}
